@@ -189,10 +189,16 @@ def dropNl (l : List Char) : List Char := if l.getLast? = some '\n' then l.dropL
 def optWords (v : Var) (opts : Var → List Char) : List (List Char) :=
   (((String.ofList (opts v ++ sepOf v.name)).splitOn " ").filter (· ≠ "")).map String.toList
 
+/-- The operand `name[=value]` is not mistaken for an option by the utility's argument parser: it does not
+    begin with `-` or `+`, or the separator `--` is printed before it. -/
+def operandSafe (name : List Char) : Bool :=
+  !(sepOf name).isEmpty || !(name.head? = some '-' || name.head? = some '+')
+
 /-- the command line(s) of a variable entry read back by the model lexer are exactly the words that
     recreate the entry (arguments of a declaration utility: `readBackDecl`) -/
 def varEntryOk (builtin : String) (opts : Var → List Char) (significant : Bool) (v : Var) : Bool :=
   if v.name.contains '=' then true
+  else if !operandSafe v.name then false
   else
     let pre := optWords v opts
     let args (line : List Char) := line.drop (builtin.length + 1)   -- what follows the utility name
@@ -239,6 +245,9 @@ def applyOp (s : State) (op : String) : Option State :=
   match op.splitOn ":" with
   | ["v", n, v, a] => do
     pure (s.setScalar (← decChars n) (← decChars v) (a.contains 'x') (a.contains 'r'))
+  | ["pv", n, v, a] => do
+    pure (s.setScalar (← decChars n) (← decChars v) (a.contains 'x') (a.contains 'r'))
+  | ["pn", n, a] => do pure (s.declare (← decChars n) (a.contains 'x') (a.contains 'r'))
   | ["n", n, a] => do pure (s.declare (← decChars n) (a.contains 'x') (a.contains 'r'))
   | ["a", n, vs, a] => do pure (s.setArray (← decChars n) (← decHexList vs) (a.contains 'x') (a.contains 'r'))
   | ["l", n, v] => do pure (s.setAlias (← decChars n) (← decChars v))
